@@ -438,7 +438,8 @@ class CtxRecorder:
 
     def _spread(self, rng, k):
         N = len(self.members)
-        pts = {0, 1, 2, N - 1, N - 2, N // 2} | {p for p in (255, 256, 257, 511, 512, 513, 65535, 65536) if p < N}
+        pts = {0, 1, 2, N - 1, N - 2, N - 3, N // 2} | {p for p in (255, 256, 257, 511, 512, 513, 65535, 65536, 65537,
+                                                                   65538, 65539, 65540, 131071) if p < N}
         pts |= set(rng.sample(range(N), min(k, N)))
         return sorted(p for p in pts if 0 <= p < N)
 
